@@ -195,6 +195,31 @@ Definition obs_prop_ok (o : obs) : bool :=
   Z.eqb (zsum (o_total o)) (n_reads (o_trace o)) &&
   Z.eqb (o_lact o) 0%Z && Z.eqb (o_dact o) 0%Z.
 
+(* ---- many connections at once against one proxy ---- *)
+Record mobs := {
+  m_traces : list (list tev);   (* events grouped by client connection (req.RemoteAddr), each in order *)
+  m_all : list tev;             (* every event, in the order the hooks were called *)
+  m_inflight : list (str * Z); m_total : list (str * Z);
+  m_lact : Z; m_dact : Z; m_ltot : Z;
+  m_conns : N;                  (* connections the clients opened *)
+  m_ok : bool
+}.
+
+(* the Prometheus model applied to the whole event stream gives the gathered registry *)
+Definition mobs_model_ok (o : mobs) : bool :=
+  m_ok o &&
+  gauge_eqb (prom_inflight (m_all o) []) (m_inflight o) &&
+  gauge_eqb (prom_total (m_all o) []) (m_total o) &&
+  Z.eqb (m_ltot o) (Z.of_N (m_conns o)).
+
+(* on every connection every request is reported exactly once, bound to itself, before the next one
+   is read; at quiescence the gauges are zero and the counter equals the requests read *)
+Definition mobs_prop_ok (o : mobs) : bool :=
+  forallb (paired None) (m_traces o) &&
+  forallb (fun kv => Z.eqb (snd kv) 0%Z) (m_inflight o) &&
+  Z.eqb (zsum (m_total o)) (n_reads (m_all o)) &&
+  Z.eqb (m_lact o) 0%Z && Z.eqb (m_dact o) 0%Z.
+
 (* ---- conntrack experiments ---- *)
 Record ctobs := mkct {
   c_kind : N;        (* 0 conntrack.Builder, 1 forwarder.Listener, 2 forwarder.Dialer *)
